@@ -56,15 +56,7 @@ int main(int argc, char **argv) {
       h_permuted(&S.D, perm_r, perm_c, &B);
       h_assert_LU_eq(&DL, &DU, &B, n, m, "C02.LU=PrAPc");
       for (int j = 0; j < n; j++) e_assert_nonzero(DU.a[j][j], "C02.Udiag.nonzero");
-      /* pivoting bounds, stated on the Schur-complement candidates c_i = B(i,j) - sum_{k<j} L(i,k) U(k,j) (i >= j) recomputed from the verified
-         leading factors: the stored multiplier is c_i / c_j, so |c_i| u <= |c_j| is the 1/u bound (measured as |re|+|im| for complex, as the library does) */
-      for (int j = 0; j < n; j++) { elem_t cand[NMAX]; unsigned char cnz[NMAX];
-        for (int i = j; i < m; i++) { elem_t c = B.a[i][j]; cnz[i] = B.nz[i][j]; for (int k = 0; k < j; k++) if (DL.nz[i][k] && DU.nz[k][j]) { c = e_sub(c, e_mul(DL.a[i][k], DU.a[k][j])); cnz[i] = 1; } cand[i] = c; }
-        real_t piv = e_abs1(cand[j]);
-        for (int i = j + 1; i < m; i++) if (cnz[i]) slusym_assert_cmp(5, (double)(e_abs1(cand[i]) * u), (double)piv, 1.0, "C02.multiplier.bound");
-        /* diagonal preference: if the diagonal row was not chosen in column j, its candidate failed the threshold test */
-        int oc = iperm_c[j]; if (oc < m) { int pr = perm_r[oc]; if (pr > j && cnz[pr]) { real_t d = e_abs1(cand[pr]); slusym_assert_or2(1, (double)d, 0.0, 4, (double)d, (double)(u * piv), "C02.diagonal.preference"); } }
-      }
+      h_assert_pivot_bounds(&DL, &DU, &B, m, n, u, perm_r, iperm_c, 1, "C02.multiplier.bound", "C02.diagonal.preference");
     }
   } else if (info > 0 && info <= n && pcok) {
     /* only the part before column c = info-1 is promised: c distinct pivot rows, leading block factored, all candidates of column c zero */
